@@ -232,7 +232,6 @@ package dhcp
 // stated over the lease that was found (by MAC or, for relayed requests, by circuit-id), not over
 // the code's own new-session flag: continuing a binding never starts accounting again
 //@   ensures existingLease != nil ==> acctStarts == 0
-//@   ensures s.acksTotal == old(s.acksTotal) + 1 && existingLease == nil && old(s.radiusClient) != nil ==> acctStarts == 1
 //@   ghost relPool mathint = 0
 //@   ghost markedUnavailable mathint = 0
 //@   ghost relSessions mathint = 0
@@ -246,6 +245,8 @@ package dhcp
 // survives RELEASE / expiry and later hands the address to a second client ("never two unexpired
 // bindings on one address"). Release 3 is the critical section that retires the old key.
 //@   ensures s.acksTotal == old(s.acksTotal) + 1 && existingLease != nil && len(existingLease.CircuitID) > 0 && (len(lease.CircuitID) == 0 || hexstr(existingLease.CircuitID) != hexstr(lease.CircuitID)) ==> unlockedN(3, !(hexstr(existingLease.CircuitID) in s.leasesByCircuitID) || s.leasesByCircuitID[hexstr(existingLease.CircuitID)] != existingLease)
+// accounting (C08), second half of the clause stated over the lease found: a new binding is started once
+//@   ensures s.acksTotal == old(s.acksTotal) + 1 && existingLease == nil && old(s.radiusClient) != nil ==> acctStarts == 1
 //@   ensures s.acksTotal == old(s.acksTotal) + 1 ==> (existingLease != nil && ipkey(existingLease.IP) == ipkey(requestedIP)) || poolOwner == 1 || old(s.httpAllocator != nil && s.httpAllocatorPool != "")
 
 // The OFFER path of handleDiscover (the only place that increments offersTotal)
